@@ -1655,6 +1655,15 @@ class BDD(dd._abc.BDD[_Ref]):
         @param x, y:
             variable name or level
         """
+        if self._last_len is not None:
+            # no reordering requests while swapping
+            # (a request would abort the swap midway)
+            last_len = self._last_len
+            self._last_len = None
+            try:
+                return self.swap(x, y, all_levels)
+            finally:
+                self._last_len = last_len
         if all_levels is None:
             self.collect_garbage()
             all_levels = self._levels()
